@@ -33,7 +33,8 @@ META = {
                   "Velocity would is not an alarm (the statement allows it). 'lags by fewer than 40' is judged on "
                   "the processed prefix of the client's packets (packets still queued behind an unfinished "
                   "command do not count). Chat events that deny / change chat messages are outside the "
-                  "statement's quantifier and not exercised; a command with signed arguments that the proxy has "
+                  "statement's quantifier and not replayed (one probe only demands that the chat queue survives a "
+                  "plugin changing a signed message under forceKeyAuthentication, which disconnects the player); a command with signed arguments that the proxy has "
                   "to consume or rewrite may end in a disconnect when forceKeyAuthentication is on (as Velocity "
                   "does), after which only order and never-exceeds are judged. Client packets are handed to the "
                   "session handler as decoded packets (wire decoding is C03/C07's business).",
@@ -98,7 +99,17 @@ def run(ctx):
             raise vlib.ToolError("hook_missing: gate %s never reached" % gname)
     if not st["outs"].get("chat") or not st["outs"].get("ack") or not st["proxy_command_runs"]:
         raise vlib.ToolError("vacuous run: outs=%s proxy runs=%s" % (st["outs"], st["proxy_command_runs"]))
-    recs = vlib.read_ndjson(ctx.path("trace.ndjson"))
+    # probe in its own process: a plugin changes a signed chat message (forceKeyAuthentication on)
+    import os
+    pr = ctx.harness("./c21", "TestChangedSignedChat", check=False, timeout=600)
+    if not os.path.exists(ctx.path("changed_begin.ndjson")):
+        raise vlib.ToolError("probe did not start:\n" + "\n".join(pr.stdout.splitlines()[-30:]))
+    probe = [{"ev": "reset", "fka": True, "proto": 765, "probe": True}] + vlib.read_ndjson(ctx.path("changed_begin.ndjson"))
+    if os.path.exists(ctx.path("changed_end.ndjson")):
+        probe += vlib.read_ndjson(ctx.path("changed_end.ndjson"))
+    else:
+        probe.append({"ev": "crashed", "rc": pr.returncode, "nil_deref": "nil pointer dereference" in pr.stdout})
+    recs = probe + vlib.read_ndjson(ctx.path("trace.ndjson"))
     rejected, matched, tstates = ctx.validate_runs("Chat_Trace", recs, timeout=1500)
     for rj in rejected:
         ctx.finding(classify(rj), "backend packets of a real chat queue run are not allowed by C21 "
@@ -150,6 +161,8 @@ def classify(rj):
     fam = "1.20.5+" if reset.get("proto", 0) >= 766 else "1.19.3-1.20.4"
     key = "%s:fka=%s" % (fam, str(reset.get("fka")).lower())
     ev = bad.get("ev")
+    if reset.get("probe"):
+        return "changed-signed-chat:fka=true:" + ("nil-future-panic" if bad.get("nil_deref") else str(ev))
     if ev == "hung":
         return key + ":hung"
     # last forwarded packet with last-seen that was accepted = last point where the backend was in step
